@@ -38,7 +38,7 @@ ENGINES = [
          serves_properties=["C01", "C04", "C07", "C08", "C11", "C14"],
          kind_free_text="implementation-shaped spec of the SQLite processors and trees (frontier cache, rollback callbacks, never-cleaned node table); "
                         "TLC exhaustive; edge-cover behaviours replayed into the real processors with SQL-trigger fault injection; named snapshots judged by TLC"),
-    dict(name="epoch", path="specs/Epoch.tla specs/EpochTrace.tla harness/areas/epoch checks/C18.py", serves_properties=["C18"],
+    dict(name="epoch", path="specs/Epoch.tla specs/EpochTrace.tla specs/PollEpoch.tla specs/PollEpochTrace.tla harness/areas/epoch harness/areas/pollepoch checks/C18.py", serves_properties=["C18"],
          kind_free_text="TLC exhaustive on the step-function spec; edge-cover behaviours replayed into the real notifier; TLC trace validation"),
 ]
 
@@ -202,7 +202,9 @@ CHECKS = {
         text="TLC checks the step function as coded (Epoch.tla) against exactly-once-at-first-past-block for every configuration "
              "N<=5, start in {0,1,7}, P in 0..99 and every increasing block sequence within 3 epochs; TLC's edge cover plus seeded long "
              "random sequences are replayed into the real EpochNotifierPerBlock and every recorded trace is judged by TLC against the "
-             "property monitor EpochTrace.tla.",
+             "property monitor EpochTrace.tla. The same is done for the epoch clock as the node wires it (PollEpoch.tla: "
+             "BlockNotifierPolling + fan-out + notifier; heads moving up, down or not at all, RPC errors, sends completing in and out of order): "
+             "the real poller's Start loop runs on a scripted RPC with the scripted and the repository's own fan-out, judged by PollEpochTrace.tla.",
         note="trusted: TLC; integer form of the float threshold test; block == StartingEpochBlock neither required nor forbidden",
         technique="TLA+ model checking (TLC) + behaviour replay into real code + TLC trace validation"),
 }
